@@ -89,7 +89,8 @@ def gen_history(ch) -> dict:
             steps.append({'op': 'restart', 'purge': ch.bool()})
     if not any(s['op'] == 'read' for s in steps):
         steps.append({'op': 'read', 'feed': last, 'stmt': 0})
-    return {'stmts': [s0, s1], 'init': init, 'steps': steps}
+    # one producer per feed for the whole process (as io.Feed.load serves its apply and train statements), or a new one per read
+    return {'stmts': [s0, s1], 'init': init, 'steps': steps, 'reuse': ch.bool()}
 
 
 HISTORY_BYTES = 2 * S.STATEMENT_BYTES + 64 + 4 * 300 + 9 * 80
@@ -197,6 +198,7 @@ def _child(store, spec, model, steps, out_fd):
 
     logging.disable(logging.CRITICAL)  # forml logs every origin load at INFO to stderr
     obs = []
+    producers = {}
     try:
         for step in steps:
             if step['op'] == 'init':
@@ -215,8 +217,11 @@ def _child(store, spec, model, steps, out_fd):
                 kinds = [k for _, k in A.outputs_of(stmt)]
                 try:
                     statement, _ = build.build_statement(stmt)
-                    feed = _make_feed(store, step['feed'], model)
-                    producer = feed.producer(feed.sources, feed.features, **feed._readerkw)
+                    if spec.get('reuse') and family(step['feed']) == 'alchemy' and step['feed'] in producers:
+                        producer = producers[step['feed']]
+                    else:
+                        feed = _make_feed(store, step['feed'], model)
+                        producer = producers[step['feed']] = feed.producer(feed.sources, feed.features, **feed._readerkw)
                     table = producer(statement, None)
                     rows = [[_plain(k, v) for k, v in zip(kinds, row)] for row in table.to_rows()]
                     obs.append({'rows': rows})
